@@ -167,6 +167,15 @@ type PathQuery struct {
 // entry when start is nil, given fn). It returns the first target found and
 // the list of blocks walked to reach it.
 func (q PathQuery) From(fn *ssa.Function, start ssa.Instruction) (ssa.Instruction, []*ssa.BasicBlock) {
+	return q.from(fn, start, nil)
+}
+
+// FromBlock searches from the first instruction of block b (inclusive).
+func (q PathQuery) FromBlock(b *ssa.BasicBlock) (ssa.Instruction, []*ssa.BasicBlock) {
+	return q.from(b.Parent(), nil, b)
+}
+
+func (q PathQuery) from(fn *ssa.Function, start ssa.Instruction, startBlock *ssa.BasicBlock) (ssa.Instruction, []*ssa.BasicBlock) {
 	if len(fn.Blocks) == 0 {
 		return nil, nil
 	}
@@ -176,7 +185,9 @@ func (q PathQuery) From(fn *ssa.Function, start ssa.Instruction) (ssa.Instructio
 		prev *item
 	}
 	var first *item
-	if start == nil {
+	if startBlock != nil {
+		first = &item{startBlock, 0, nil}
+	} else if start == nil {
 		first = &item{fn.Blocks[0], 0, nil}
 	} else {
 		first = &item{start.Block(), Index(start) + 1, nil}
